@@ -393,3 +393,99 @@ Theorem C01_noise_median2d_mixed_refuted : forall (M N hr hc : Z),
   Pad2D.noise_median2d_shape_with Pad2D.pad_edges2d_shape_mixed M N hr hc true None = Pad2D.PadOk M (N + 2 * (hr - hc)).
 Proof. exact Pad2DProofs.noise_median2d_mixed_refuted. Qed.
 Print Assumptions C01_noise_median2d_mixed_refuted.
+
+(* ---- a fitter with a HISTORY (C01/FitterState.v): configuration (output dtype, check_finite, solver choice, sort
+   orders) + method calls as scripts whose computations may raise at ANY point.  Tie to the source: tools/gen_c01_config.py
+   scans every function of the package on every run and REFUSES a store to a configuration attribute outside __init__,
+   the property setters and freshly constructed objects (coq/gen/GenC01Config.v lists the sites). *)
+From PB Require C01.FitterState C01.FitterStateProofs gen.GenC01Config.
+
+(* the stores to configuration attributes found in the current source are constructor / setter / fresh-object stores,
+   and the attributes the model speaks about are among the derived configuration attributes *)
+Theorem C01_config_write_sites_allowed :
+  forallb (fun s => existsb (String.eqb (snd s)) ["ctor"; "setter"; "fresh"]%string) GenC01Config.config_write_sites = true /\
+  forallb (fun a => existsb (String.eqb a) GenC01Config.config_attrs)
+          ["_dtype"; "_check_finite"; "_banded_solver"; "_pentapy_solver"; "_sort_order"; "_inverted_order"]%string = true.
+Proof. vm_compute. split; reflexivity. Qed.
+Print Assumptions C01_config_write_sites_allowed.
+
+(* the only configuration stores on an object other than `self`: objects constructed in that very function *)
+Theorem C01_config_fresh_object_sites :
+  map (fun s => (fst (fst s), snd (fst s)))
+      (filter (fun s => String.eqb (snd s) "fresh"%string) GenC01Config.config_write_sites) =
+  [("_inverted_order", "_algorithm_setup._Algorithm._override_x"); ("_sort_order", "_algorithm_setup._Algorithm._override_x");
+   ("banded_solver", "_algorithm_setup._Algorithm._get_function"); ("banded_solver", "_algorithm_setup._Algorithm._override_x");
+   ("banded_solver", "two_d._algorithm_setup._Algorithm2D._get_function");
+   ("banded_solver", "two_d.optimizers._Optimizers.individual_axes")]%string.
+Proof. vm_compute. reflexivity. Qed.
+Print Assumptions C01_config_fresh_object_sites.
+
+(* what IS written after construction: x / z / shape on the first call of an object built without them, the validation
+   flags and the polynomial / spline caches -- exactly these method sites *)
+Theorem C01_state_write_sites :
+  map (fun s => (fst (fst s), snd (fst s)))
+      (filter (fun s => String.eqb (snd s) "method"%string) GenC01Config.state_write_sites) =
+  [("_polynomial", "_algorithm_setup._Algorithm._setup_polynomial");
+   ("_polynomial", "two_d._algorithm_setup._Algorithm2D._setup_polynomial");
+   ("_shape", "two_d._algorithm_setup._Algorithm2D._register.inner");
+   ("_size", "_algorithm_setup._Algorithm._register.inner");
+   ("_spline_basis", "_algorithm_setup._Algorithm._setup_spline");
+   ("_spline_basis", "two_d._algorithm_setup._Algorithm2D._setup_spline");
+   ("_validated_x", "_algorithm_setup._Algorithm._register.inner");
+   ("_validated_x", "two_d._algorithm_setup._Algorithm2D._register.inner");
+   ("_validated_z", "two_d._algorithm_setup._Algorithm2D._register.inner");
+   ("x", "_algorithm_setup._Algorithm._register.inner"); ("x", "two_d._algorithm_setup._Algorithm2D._register.inner");
+   ("z", "two_d._algorithm_setup._Algorithm2D._register.inner")]%string.
+Proof. vm_compute. reflexivity. Qed.
+Print Assumptions C01_state_write_sites.
+
+(* after ANY history of calls whose scripts do not store to the configuration -- whatever each call's outcome: returned,
+   raised up front, raised deep inside an inner fit, raised after partial work -- the configuration is the constructor's *)
+Theorem C01_config_invariant : forall (h : list FitterState.call),
+  Forall FitterStateProofs.pure_call h -> forall st : FitterState.obj,
+  FitterState.cfg (FitterState.run st h) = FitterState.cfg st.
+Proof. exact FitterStateProofs.run_preserves_cfg. Qed.
+Print Assumptions C01_config_invariant.
+
+(* hence a later call returns exactly what the same call on the untouched object returns: the documented dtype for the
+   CONSTRUCTOR's output_dtype (C01_dtype_rule), the method body gets float64, params keep their dtype *)
+Theorem C01_dtype_after_history : forall (h : list FitterState.call) (st : FitterState.obj) (f : Dtype.flags)
+    (i : Dtype.input) (bd pd : Dtype.dt),
+  Forall FitterStateProofs.pure_call h ->
+  FitterState.later_call (FitterState.run st h) f i bd pd = FitterState.later_call st f i bd pd /\
+  forall r, FitterState.later_call (FitterState.run st h) f i bd pd = Some r ->
+            Dtype.r_ret r = Dtype.documented (Dtype.eff_out (Dtype.entry f) (FitterState.out_of (FitterState.cfg st))) i bd /\
+            Dtype.r_received r = Dtype.F64 /\ Dtype.r_params r = pd.
+Proof. exact FitterStateProofs.dtype_after_history. Qed.
+Print Assumptions C01_dtype_after_history.
+
+(* a temporary change of a configuration attribute is safe under try/finally, for every outcome of the body ... *)
+Theorem C01_try_finally_restores : forall (a : FitterState.attr) (v : FitterState.cval) (body : FitterState.script),
+  FitterState.inert body = true -> forall o st b,
+  FitterState.cfg (fst (FitterState.exec (FitterState.protected a v body) o st)) b = FitterState.cfg st b.
+Proof. exact FitterStateProofs.protected_restores. Qed.
+Print Assumptions C01_try_finally_restores.
+
+(* ... but with the restore as a plain statement, ONE call whose computation in between raises leaves `_dtype` cleared:
+   on an object constructed with output_dtype = d every later call on data of another dtype d' returns d' *)
+Theorem C01_unprotected_restore_refuted : forall (st : FitterState.obj) (f : Dtype.flags) (d d' bd pd : Dtype.dt),
+  FitterState.out_of (FitterState.cfg st) = Some d -> d' <> d ->
+  Dtype.eff_out (Dtype.entry f) (Some d) = Some d ->
+  let st' := FitterState.run st [(FitterState.unprotected FitterState.ADtype (FitterState.VDt None) (FitterState.Work 0),
+                                  fun _ => true)] in
+  exists r r', FitterState.later_call st f (Dtype.Arr d') bd pd = Some r /\
+               FitterState.later_call st' f (Dtype.Arr d') bd pd = Some r' /\
+               Dtype.r_ret r = d /\ Dtype.r_ret r' = d'.
+Proof. exact FitterStateProofs.unprotected_dtype_refuted. Qed.
+Print Assumptions C01_unprotected_restore_refuted.
+
+(* a history with a call that raises up front, one that raises deep inside and one that returns: premises satisfiable *)
+Example C01_history_nonvacuous :
+  Forall FitterStateProofs.pure_call
+    [(FitterState.Work 0, fun _ => true);
+     (FitterState.Seq (FitterState.Work 0) (FitterState.Seq (FitterState.Save FitterState.ADtype 1) (FitterState.Work 1)),
+      fun k => Nat.eqb k 1);
+     (FitterState.Seq (FitterState.Work 0) (FitterState.Work 1), fun _ => false)]
+  /\ snd (FitterState.exec (FitterState.Seq (FitterState.Work 0) (FitterState.Work 1)) (fun k => Nat.eqb k 1)
+            {| FitterState.cfg := fun _ => FitterState.VNat 0; FitterState.slots := fun _ _ => FitterState.VNat 0 |}) = true.
+Proof. split; [repeat constructor|reflexivity]. Qed.
